@@ -140,6 +140,10 @@ func c06Render(in c06In) ([]byte, error) {
 	for _, e := range in.Exc {
 		cfg.ExcludeCases = append(cfg.ExcludeCases, c06EntryProto(e))
 	}
+	if in.Fmt == "empty" {
+		// the `len(data) == 0` branch of parseConfig: no file contents at all (all defaults)
+		return []byte{}, nil
+	}
 	if in.Fmt == "nofeatures" {
 		// the `config.Features == nil` branch of parseConfig (only meaningful with all-default features)
 		cfg.Features = nil
@@ -366,7 +370,8 @@ func runC06(c *gen.Ctx) error {
 		}
 		add(in)
 	}
-	// the features message absent altogether
+	// no configuration data at all; the features message absent altogether
+	add(c06In{Flags: [7]int{-1, -1, -1, -1, -1, -1, -1}, Fmt: "empty"})
 	add(c06In{Flags: [7]int{-1, -1, -1, -1, -1, -1, -1}, Fmt: "nofeatures"})
 	add(c06In{Flags: [7]int{-1, -1, -1, -1, -1, -1, -1}, Fmt: "nofeatures", Exc: []c06Entry{{0, 0, 0, 0, 0, -1, -1, -1}}})
 	// the shipped configurations of the repository (testing/*.yaml), abstracted by hand
